@@ -10,6 +10,7 @@ from vf.writers import vdi as w
 
 ID = "C05"
 LEVEL = "exploration"
+CONTRACTS = True  # icontract postconditions on AlignedStream.read/peek/seek fire during this workload too
 STEP_BUDGET = 3_000_000  # line events per case; a case that exceeds it is reported as non-termination
 ANCHOR_FILES = ["dissect/hypervisor/disk/vdi.py"]
 RULE = (
